@@ -46,11 +46,19 @@ def probe_deviations(workdir):
     dev = set()
 
     def run(script, eoc=True, pks=None):
-        r.reset(pks or {"o1": 1, "o2": 2}, expire_on_commit=eoc)
-        rets = []
-        for a, arg in script:
-            rets.append(r.do(a, arg))
-        return rets, r.observe()
+        # a probe that cannot even be observed (a broken tree) decides nothing: the replay reports the breakage
+        try:
+            r.reset(pks or {"o1": 1, "o2": 2}, expire_on_commit=eoc)
+            rets = []
+            for a, arg in script:
+                rets.append(r.do(a, arg))
+            return rets, r.observe()
+        except Exception:      # noqa
+            try:
+                r.session = None
+            except Exception:      # noqa
+                pass
+            return ["?"] * len(script), {"o": {"o1": {"life": "?", "key": -1}, "o2": {"life": "?", "key": -1}}, "ev": {}, "imap": {}}
 
     def evs(o):
         return {k[0]: v for k, v in o["ev"].items()}
